@@ -2,7 +2,26 @@
 Line-protocol driver: `hkdrv <property>` reads one case per line on stdin and answers one
 canonical line per case on stdout, by running the property's executable Lean model.
 -/
+import HickoryVerif.Drv.C01
+import HickoryVerif.Drv.C02
+import HickoryVerif.Drv.C03
 import HickoryVerif.Drv.C04
+import HickoryVerif.Drv.C05
+import HickoryVerif.Drv.C06
+import HickoryVerif.Drv.C07
+import HickoryVerif.Drv.C08
+import HickoryVerif.Drv.C09
+import HickoryVerif.Drv.C10
+import HickoryVerif.Drv.C11
+import HickoryVerif.Drv.C12
+import HickoryVerif.Drv.C13
+import HickoryVerif.Drv.C14
+import HickoryVerif.Drv.C15
+import HickoryVerif.Drv.C16
+import HickoryVerif.Drv.C17
+import HickoryVerif.Drv.C18
+import HickoryVerif.Drv.C19
+import HickoryVerif.Drv.C20
 
 open HickoryVerif.Drv
 
@@ -19,5 +38,24 @@ def main (args : List String) : IO UInt32 := do
   let inp ← IO.getStdin
   let out ← IO.getStdout
   match args with
+  | ["c01"] => loop C01.step inp out C01.init; out.flush; return 0
+  | ["c02"] => loop C02.step inp out C02.init; out.flush; return 0
+  | ["c03"] => loop C03.step inp out C03.init; out.flush; return 0
   | ["c04"] => loop C04.step inp out C04.init; out.flush; return 0
+  | ["c05"] => loop C05.step inp out C05.init; out.flush; return 0
+  | ["c06"] => loop C06.step inp out C06.init; out.flush; return 0
+  | ["c07"] => loop C07.step inp out C07.init; out.flush; return 0
+  | ["c08"] => loop C08.step inp out C08.init; out.flush; return 0
+  | ["c09"] => loop C09.step inp out C09.init; out.flush; return 0
+  | ["c10"] => loop C10.step inp out C10.init; out.flush; return 0
+  | ["c11"] => loop C11.step inp out C11.init; out.flush; return 0
+  | ["c12"] => loop C12.step inp out C12.init; out.flush; return 0
+  | ["c13"] => loop C13.step inp out C13.init; out.flush; return 0
+  | ["c14"] => loop C14.step inp out C14.init; out.flush; return 0
+  | ["c15"] => loop C15.step inp out C15.init; out.flush; return 0
+  | ["c16"] => loop C16.step inp out C16.init; out.flush; return 0
+  | ["c17"] => loop C17.step inp out C17.init; out.flush; return 0
+  | ["c18"] => loop C18.step inp out C18.init; out.flush; return 0
+  | ["c19"] => loop C19.step inp out C19.init; out.flush; return 0
+  | ["c20"] => loop C20.step inp out C20.init; out.flush; return 0
   | _ => IO.eprintln "usage: hkdrv <property>"; return 2
